@@ -1050,6 +1050,8 @@ class Exec:
             g = z3.simplify(g)
             if z3.is_false(g):
                 continue
+            if getattr(self, 'prune', False) == 'eager' and not z3.is_true(g) and not self._feasible(g):
+                continue            # the block guard is unsatisfiable under the stated preconditions: the block is not executed
             label, ctx = node
             env.view = ctx
             self.stats['blocks'] += 1
@@ -1080,6 +1082,11 @@ class Exec:
                 try:
                     g = self.step(fn, node, ins, env, g, nodes, nguard, eguard, rets, depth, exceeded_from)
                 except Unsupported as e:
+                    if getattr(self, 'prune', False) and not z3.is_true(g) and not self._feasible(g):
+                        # lazy pruning: the instruction cannot be encoded, but its block is unreachable under the stated
+                        # preconditions (guard unsatisfiable); what the block did so far is guarded by that guard, and it gets no successors
+                        g = None
+                        break
                     if not getattr(e, 'located', False):
                         e.args = ('%s  [at %s:%s: %s]' % (e.args[0] if e.args else '', name, label, ins.text[:140]),)
                         e.located = True
@@ -1096,6 +1103,30 @@ class Exec:
         for (g_, v) in reversed(rets[:-1]):
             val = self.ite(g_, v, val)
         return val, rg
+
+    def _feasible(self, g):
+        """Optional solver-based pruning (self.prune): is the block guard satisfiable together with self.prune_pre (preconditions that
+        every query of the check also assumes) and the assumptions collected so far?  `unknown` counts as feasible."""
+        cache = self.__dict__.setdefault('_feas_cache', {})
+        k = g.get_id()
+        r = cache.get(k)
+        if r is None:
+            s = self.__dict__.get('_feas_solver')
+            if s is None:
+                s = self._feas_solver = z3.Solver()
+                s.set('timeout', 2000)
+                s.add(*getattr(self, 'prune_pre', []))
+                self._feas_nass = 0
+            for a in self.assumptions[self._feas_nass:]:
+                s.add(a)
+            self._feas_nass = len(self.assumptions)
+            s.push()
+            s.add(g)
+            r = (str(s.check()) != 'unsat', g)          # keep g alive: ids are only unique among live terms
+            s.pop()
+            cache[k] = r
+            self.stats['pruned'] = self.stats.get('pruned', 0) + (0 if r[0] else 1)
+        return r[0]
 
     def _define(self, env, name, val, g):
         if getattr(env, 'raw', None) is not None:
